@@ -41,6 +41,9 @@ type Workload struct {
 	Ports          []CPort           `json:",omitempty"`
 	// SplitContainers: the container ports are spread over two containers of the pod template
 	SplitContainers bool `json:",omitempty"`
+	// MixedOwnerAPI: (bare pods of a controller only) the ownerReferences of the pods spell the controller's apiVersion
+	// differently (apps/v1, apps/v1beta2 - as after an upgrade); it is one owner all the same
+	MixedOwnerAPI bool `json:",omitempty"`
 	// NCont: the container ports are dealt round-robin over this many containers (0 = see SplitContainers)
 	NCont int `json:",omitempty"`
 	// Helper: a container that declares no ports in the pod template: 1 = listed first, 2 = listed last, 3 = an init
